@@ -147,6 +147,11 @@ func gvaRootObj(info *types.Info, e ast.Expr) types.Object {
 			e = x.X
 		case *ast.SliceExpr:
 			e = x.X
+		case *ast.UnaryExpr:
+			if x.Op != token.AND {
+				return nil
+			}
+			e = x.X
 		case *ast.CallExpr:
 			if s, ok := ast.Unparen(x.Fun).(*ast.SelectorExpr); ok {
 				e = s.X
@@ -256,4 +261,533 @@ func gvaValEq(a, b reflect.Value, path string) string {
 		return ""
 	}
 	return ""
+}
+
+// ---- symbolic terms: an expression with single-definition locals resolved and
+// (optionally) single-return helpers of the loaded program inlined. Rules match
+// on terms so that a hoisted local or an extracted helper does not change the
+// verdict. ----
+
+type gvaTerm struct {
+	Kind string // "const" "obj" "acc" "call" "binop" "unop" "conv" "sel" "lit" "unknown"
+	Name string // const value / accessor name / callee name / operator / target type / field
+	Obj  types.Object
+	Args []*gvaTerm
+	Pos  token.Pos
+	Src  string // conv: underlying type of the converted operand
+}
+
+func (t *gvaTerm) String() string {
+	if t == nil {
+		return "<nil>"
+	}
+	switch t.Kind {
+	case "const":
+		return t.Name
+	case "obj":
+		if t.Obj != nil {
+			return fmt.Sprintf("%s#%p", t.Obj.Name(), t.Obj)
+		}
+		return "?"
+	}
+	var as []string
+	for _, a := range t.Args {
+		as = append(as, a.String())
+	}
+	return t.Kind + ":" + t.Name + "(" + strings.Join(as, ",") + ")"
+}
+
+// gvaNorm options.
+type gvaNormOpt struct {
+	Inline      func(h *engine.Fn) bool // which helpers may be inlined (nil: none)
+	ZeroReassig bool                    // tolerate extra assignments of a constant 0 to a local (const -0 normalisation)
+}
+
+type gvaEnv map[types.Object]*gvaTerm
+
+func gvaNorm(f *engine.Fn, e ast.Expr, env gvaEnv, opt gvaNormOpt, depth int) *gvaTerm {
+	info := f.Info()
+	e = ast.Unparen(e)
+	if e == nil {
+		return &gvaTerm{Kind: "unknown"}
+	}
+	if depth > 40 {
+		return &gvaTerm{Kind: "unknown", Pos: e.Pos()}
+	}
+	if tv, ok := info.Types[e]; ok && tv.Value != nil {
+		return &gvaTerm{Kind: "const", Name: tv.Value.ExactString(), Pos: e.Pos()}
+	}
+	rec := func(x ast.Expr) *gvaTerm { return gvaNorm(f, x, env, opt, depth+1) }
+	switch x := e.(type) {
+	case *ast.Ident:
+		obj := info.ObjectOf(x)
+		if obj == nil {
+			return &gvaTerm{Kind: "unknown", Pos: e.Pos()}
+		}
+		if t, ok := env[obj]; ok {
+			return t
+		}
+		if _, isNil := obj.(*types.Nil); isNil {
+			return &gvaTerm{Kind: "const", Name: "nil", Pos: e.Pos()}
+		}
+		if v, ok := obj.(*types.Var); ok && !v.IsField() && v.Parent() != nil && v.Parent() != v.Pkg().Scope() {
+			if def := gvaReachingDef(f, obj, x.Pos(), opt.ZeroReassig); def != nil {
+				return gvaNorm(f, def, env, opt, depth+1)
+			}
+		}
+		return &gvaTerm{Kind: "obj", Obj: obj, Pos: e.Pos()}
+	case *ast.StarExpr:
+		return rec(x.X)
+	case *ast.TypeAssertExpr:
+		return rec(x.X)
+	case *ast.UnaryExpr:
+		if x.Op == token.AND {
+			return rec(x.X)
+		}
+		return &gvaTerm{Kind: "unop", Name: x.Op.String(), Args: []*gvaTerm{rec(x.X)}, Pos: e.Pos()}
+	case *ast.BinaryExpr:
+		return &gvaTerm{Kind: "binop", Name: x.Op.String(), Args: []*gvaTerm{rec(x.X), rec(x.Y)}, Pos: e.Pos()}
+	case *ast.SelectorExpr:
+		if o := info.Uses[x.Sel]; o != nil {
+			if _, isPkg := info.Uses[gvaIdentOf(x.X)].(*types.PkgName); isPkg {
+				return &gvaTerm{Kind: "obj", Obj: o, Pos: e.Pos()}
+			}
+		}
+		return &gvaTerm{Kind: "sel", Name: x.Sel.Name, Args: []*gvaTerm{rec(x.X)}, Pos: e.Pos()}
+	case *ast.IndexExpr:
+		return &gvaTerm{Kind: "index", Args: []*gvaTerm{rec(x.X), rec(x.Index)}, Pos: e.Pos()}
+	case *ast.CompositeLit:
+		t := &gvaTerm{Kind: "lit", Name: engine.TypeName(info.TypeOf(x)), Pos: e.Pos()}
+		for _, el := range x.Elts {
+			if kv, ok := el.(*ast.KeyValueExpr); ok {
+				t.Args = append(t.Args, rec(kv.Value))
+			} else {
+				t.Args = append(t.Args, rec(el))
+			}
+		}
+		return t
+	case *ast.CallExpr:
+		if len(x.Args) == 1 && info.Types[x.Fun].IsType() {
+			src := ""
+			if st := info.TypeOf(x.Args[0]); st != nil {
+				src = st.Underlying().String()
+			}
+			return &gvaTerm{Kind: "conv", Name: info.TypeOf(x.Fun).Underlying().String(), Args: []*gvaTerm{rec(x.Args[0])}, Pos: e.Pos(), Src: src}
+		}
+		if name, recv := gvaTVAccessor(info, x); strings.HasPrefix(name, "Get") {
+			return &gvaTerm{Kind: "acc", Name: name, Args: []*gvaTerm{rec(recv)}, Pos: e.Pos()}
+		}
+		_, cn := gvaCallee(info, x)
+		var args []*gvaTerm
+		var recvT *gvaTerm
+		if sel, ok := ast.Unparen(x.Fun).(*ast.SelectorExpr); ok {
+			if fo, ok := info.Uses[sel.Sel].(*types.Func); ok && fo.Type().(*types.Signature).Recv() != nil {
+				recvT = rec(sel.X)
+			}
+		}
+		for _, a := range x.Args {
+			args = append(args, rec(a))
+		}
+		// inline a single-return helper of the loaded program
+		if opt.Inline != nil {
+			if fo, ok := gvaCalleeFunc(info, x); ok {
+				if h := f.Prog.FnOf(fo); h != nil && h != f && opt.Inline(h) {
+					if ret := gvaSoleReturn(h); ret != nil {
+						env2 := gvaEnv{}
+						i := 0
+						for _, fld := range h.Type.Params.List {
+							for _, nm := range fld.Names {
+								if i < len(args) {
+									env2[h.Info().ObjectOf(nm)] = args[i]
+								}
+								i++
+							}
+						}
+						if h.Decl != nil && h.Decl.Recv != nil && recvT != nil {
+							for _, fld := range h.Decl.Recv.List {
+								for _, nm := range fld.Names {
+									env2[h.Info().ObjectOf(nm)] = recvT
+								}
+							}
+						}
+						return gvaNorm(h, ret, env2, opt, depth+1)
+					}
+				}
+			}
+		}
+		t := &gvaTerm{Kind: "call", Name: cn, Pos: e.Pos()}
+		if recvT != nil {
+			t.Args = append(t.Args, recvT)
+		}
+		t.Args = append(t.Args, args...)
+		return t
+	}
+	return &gvaTerm{Kind: "unknown", Pos: e.Pos()}
+}
+
+func gvaIdentOf(e ast.Expr) *ast.Ident {
+	id, _ := ast.Unparen(e).(*ast.Ident)
+	return id
+}
+
+func gvaCalleeFunc(info *types.Info, c *ast.CallExpr) (*types.Func, bool) {
+	var id *ast.Ident
+	switch f := ast.Unparen(c.Fun).(type) {
+	case *ast.Ident:
+		id = f
+	case *ast.SelectorExpr:
+		id = f.Sel
+	}
+	if id == nil {
+		return nil, false
+	}
+	fo, ok := info.Uses[id].(*types.Func)
+	return fo, ok
+}
+
+// gvaSoleReturn: the helper's body is `return e` (one result), possibly after
+// statements that are not returns; nil when there are several returns.
+func gvaSoleReturn(h *engine.Fn) ast.Expr {
+	var rets []*ast.ReturnStmt
+	engine.InspectBody(h, func(n ast.Node) {
+		if r, ok := n.(*ast.ReturnStmt); ok {
+			rets = append(rets, r)
+		}
+	})
+	if len(rets) != 1 || len(rets[0].Results) != 1 {
+		return nil
+	}
+	return rets[0].Results[0]
+}
+
+// gvaSingleDef returns the defining expression of a local that is assigned
+// exactly once (a := e / var a = e / a, _ := f()), nil otherwise. A tuple
+// definition resolves to the call for its first variable.
+func gvaSingleDef(f *engine.Fn, obj types.Object, zeroOK bool) ast.Expr {
+	info := f.Info()
+	var def ast.Expr
+	n := 0
+	bad := false
+	var walk func(root ast.Node)
+	walk = func(root ast.Node) {
+		ast.Inspect(root, func(nd ast.Node) bool {
+			switch x := nd.(type) {
+			case *ast.AssignStmt:
+				for i, l := range x.Lhs {
+					if engine.ObjOf(info, l) != obj {
+						if gvaRootObj(info, l) == obj && ast.Unparen(l) != ast.Expr(gvaIdentOf(l)) {
+							// a[i] = …, a.f = … : written through
+							if _, isPtr := obj.Type().Underlying().(*types.Pointer); !isPtr {
+								bad = true
+							}
+						}
+						continue
+					}
+					if x.Tok != token.DEFINE && x.Tok != token.ASSIGN {
+						bad = true
+						continue
+					}
+					var rhs ast.Expr
+					if len(x.Rhs) == len(x.Lhs) {
+						rhs = x.Rhs[i]
+					} else if len(x.Rhs) == 1 && i == 0 {
+						rhs = x.Rhs[0]
+					} else {
+						bad = true
+						continue
+					}
+					if zeroOK && x.Tok == token.ASSIGN {
+						if tv := info.Types[rhs]; tv.Value != nil && tv.Value.ExactString() == "0" {
+							continue
+						}
+					}
+					n++
+					def = rhs
+				}
+			case *ast.ValueSpec:
+				for i, nm := range x.Names {
+					if info.Defs[nm] == obj {
+						if len(x.Values) == len(x.Names) {
+							n++
+							def = x.Values[i]
+						} else {
+							bad = true
+						}
+					}
+				}
+			case *ast.IncDecStmt:
+				if engine.ObjOf(info, x.X) == obj {
+					bad = true
+				}
+			case *ast.RangeStmt:
+				if (x.Key != nil && engine.ObjOf(info, x.Key) == obj) || (x.Value != nil && engine.ObjOf(info, x.Value) == obj) {
+					bad = true
+				}
+			case *ast.UnaryExpr:
+				if x.Op == token.AND && engine.ObjOf(info, x.X) == obj {
+					bad = true
+				}
+			}
+			return true
+		})
+	}
+	walk(f.Root().Body)
+	if bad || n != 1 {
+		return nil
+	}
+	return def
+}
+
+// gvaStripConv removes Go conversions around a term; ok reports whether every
+// stripped conversion satisfies keep (nil: any).
+func gvaStripConv(t *gvaTerm) *gvaTerm {
+	for t != nil && t.Kind == "conv" && len(t.Args) == 1 {
+		t = t.Args[0]
+	}
+	return t
+}
+
+// gvaTermObjs collects the leaf objects of a term.
+func gvaTermObjs(t *gvaTerm, out map[types.Object]bool) {
+	if t == nil {
+		return
+	}
+	if t.Kind == "obj" && t.Obj != nil {
+		out[t.Obj] = true
+	}
+	for _, a := range t.Args {
+		gvaTermObjs(a, out)
+	}
+}
+
+func gvaTermMentions(t *gvaTerm, o types.Object) bool {
+	m := map[types.Object]bool{}
+	gvaTermObjs(t, m)
+	return o != nil && m[o]
+}
+
+// gvaAccOf: term is (conversions of) accessor Get<acc> read from object o.
+func gvaAccOf(t *gvaTerm, o types.Object) (name string, ok bool) {
+	t = gvaStripConv(t)
+	if t == nil || t.Kind != "acc" || len(t.Args) != 1 {
+		return "", false
+	}
+	r := t.Args[0]
+	for r != nil && r.Kind == "sel" && len(r.Args) == 1 { // pv.TV.GetInt(): read through a field of the operand holder
+		r = r.Args[0]
+	}
+	if r == nil || r.Kind != "obj" || r.Obj != o {
+		// the receiver may itself be the operand (lv) or a field chain rooted at it
+		if !gvaTermMentions(t.Args[0], o) {
+			return t.Name, false
+		}
+	}
+	return t.Name, true
+}
+
+// gvaTVParams returns the parameters of f whose type is *TypedValue, in order.
+func gvaTVParams(f *engine.Fn) []types.Object {
+	var out []types.Object
+	for _, fld := range f.Type.Params.List {
+		for _, nm := range fld.Names {
+			o := f.Info().ObjectOf(nm)
+			if o != nil && engine.TypeName(o.Type()) == "*"+gvaGno+".TypedValue" {
+				out = append(out, o)
+			}
+		}
+	}
+	return out
+}
+
+// gvaReachingDef resolves a local at a use position: its single definition, or
+// — when it is assigned several times by statements of one straight-line
+// statement list — the latest assignment that ends before the use.
+func gvaReachingDef(f *engine.Fn, obj types.Object, use token.Pos, zeroOK bool) ast.Expr {
+	if d := gvaSingleDef(f, obj, zeroOK); d != nil {
+		return d
+	}
+	info := f.Info()
+	type asg struct {
+		st   ast.Stmt
+		rhs  ast.Expr
+		list *[]ast.Stmt
+	}
+	var all []asg
+	bad := false
+	var visitList func(list []ast.Stmt)
+	var visitStmt func(st ast.Stmt, list *[]ast.Stmt, direct bool)
+	visitStmt = func(st ast.Stmt, list *[]ast.Stmt, direct bool) {
+		switch x := st.(type) {
+		case *ast.AssignStmt:
+			for i, l := range x.Lhs {
+				if engine.ObjOf(info, l) == obj {
+					if (x.Tok != token.DEFINE && x.Tok != token.ASSIGN) || len(x.Lhs) != len(x.Rhs) || !direct {
+						bad = true
+						return
+					}
+					all = append(all, asg{x, x.Rhs[i], list})
+				}
+			}
+			return
+		case *ast.IncDecStmt:
+			if engine.ObjOf(info, x.X) == obj {
+				bad = true
+			}
+			return
+		case *ast.DeclStmt:
+			ast.Inspect(x, func(n ast.Node) bool {
+				if vs, ok := n.(*ast.ValueSpec); ok {
+					for _, nm := range vs.Names {
+						if info.Defs[nm] == obj {
+							bad = true
+						}
+					}
+				}
+				return true
+			})
+			return
+		}
+		// compound statements: assignments inside are not straight-line
+		ast.Inspect(st, func(n ast.Node) bool {
+			switch y := n.(type) {
+			case *ast.FuncLit:
+				return true
+			case *ast.BlockStmt:
+				if n != ast.Node(st) {
+					visitList(y.List)
+					return false
+				}
+			case *ast.CaseClause:
+				visitList(y.Body)
+				return false
+			case *ast.CommClause:
+				visitList(y.Body)
+				return false
+			case *ast.AssignStmt:
+				if n != ast.Node(st) {
+					for _, l := range y.Lhs {
+						if engine.ObjOf(info, l) == obj {
+							bad = true
+						}
+					}
+				}
+			case *ast.RangeStmt:
+				if (y.Key != nil && engine.ObjOf(info, y.Key) == obj) || (y.Value != nil && engine.ObjOf(info, y.Value) == obj) {
+					bad = true
+				}
+			case *ast.UnaryExpr:
+				if y.Op == token.AND && engine.ObjOf(info, y.X) == obj {
+					bad = true
+				}
+			}
+			return true
+		})
+	}
+	visitList = func(list []ast.Stmt) {
+		l := list
+		for _, st := range list {
+			visitStmt(st, &l, true)
+		}
+	}
+	visitList(f.Root().Body.List)
+	if bad || len(all) < 2 {
+		return nil
+	}
+	// all in one list?
+	first := all[0].st
+	var home []ast.Stmt
+	var find func(list []ast.Stmt) bool
+	find = func(list []ast.Stmt) bool {
+		for _, st := range list {
+			if st == first {
+				home = list
+				return true
+			}
+		}
+		found := false
+		for _, st := range list {
+			ast.Inspect(st, func(n ast.Node) bool {
+				if found {
+					return false
+				}
+				switch y := n.(type) {
+				case *ast.BlockStmt:
+					if find(y.List) {
+						found = true
+					}
+				case *ast.CaseClause:
+					if find(y.Body) {
+						found = true
+					}
+				}
+				return !found
+			})
+			if found {
+				return true
+			}
+		}
+		return false
+	}
+	if !find(f.Root().Body.List) {
+		return nil
+	}
+	inHome := func(st ast.Stmt) bool {
+		for _, h := range home {
+			if h == st {
+				return true
+			}
+		}
+		return false
+	}
+	var best ast.Expr
+	var bestEnd token.Pos
+	for _, a := range all {
+		if !inHome(a.st) {
+			return nil
+		}
+		if a.st.End() <= use && a.st.End() > bestEnd {
+			best, bestEnd = a.rhs, a.st.End()
+		}
+	}
+	// the use itself must be inside the home list's span
+	if len(home) == 0 || use < home[0].Pos() || use > home[len(home)-1].End() {
+		return nil
+	}
+	return best
+}
+
+// gvaIsIntConvName reports whether a conversion target is an integer type.
+func gvaIntBits(name string) (bits int, signed, ok bool) {
+	switch name {
+	case "int8":
+		return 8, true, true
+	case "int16":
+		return 16, true, true
+	case "int32":
+		return 32, true, true
+	case "int64", "int":
+		return 64, true, true
+	case "uint8":
+		return 8, false, true
+	case "uint16":
+		return 16, false, true
+	case "uint32":
+		return 32, false, true
+	case "uint64", "uint":
+		return 64, false, true
+	}
+	return 0, false, false
+}
+
+// gvaWideningConv: converting src to dst preserves every value.
+func gvaWideningConv(src, dst string) bool {
+	sb, ss, ok1 := gvaIntBits(src)
+	db, ds, ok2 := gvaIntBits(dst)
+	if !ok1 || !ok2 {
+		return false
+	}
+	if ss == ds {
+		return db >= sb
+	}
+	return !ss && ds && db > sb
 }
